@@ -296,7 +296,7 @@ Section Seq.
         intros [x [Hx Hr]]. apply CN. exists x; split; auto.
         apply in_app_or in Hx as [Hx|[<-|[]]]; auto. rewrite RC in Hr; discriminate.
     - (* CReg *) destruct H as [CP (R & [F1 F2] & E & CN)].
-      set (T' := {| t_regs := t_regs (tbl s (s_map s)) ++ [d]; t_dict := []; t_errs := t_errs (tbl s (s_map s)); t_all := t_all (tbl s (s_map s)) |}).
+      set (T' := {| t_regs := t_regs (tbl s (s_map s)) ++ [d]; t_dict := []; t_errs := []; t_all := [] |}).
       assert (FR : Fresh (set_tbl s (s_map s) T') (R ++ [d])).
       { split; [cbn; rewrite length_set_nth; exact F1|]. change (s_map (set_tbl s (s_map s) T')) with (s_map s).
         rewrite tbl_set_eq by exact F1. unfold T'. rewrite F2; reflexivity. }
